@@ -66,27 +66,50 @@ def coq_project():
                        capture_output=True)
 
 
+def strip_coq_comments(text):
+    """remove (* ... *) comments (nested), keeping newlines so that line numbers survive."""
+    out, depth, i, n = [], 0, 0, len(text)
+    instr = False
+    while i < n:
+        c = text[i]
+        if depth == 0 and c == '"':
+            instr = not instr
+            out.append(c); i += 1; continue
+        if not instr and text.startswith("(*", i):
+            depth += 1; i += 2; continue
+        if not instr and depth > 0 and text.startswith("*)", i):
+            depth -= 1; i += 2; continue
+        if depth > 0:
+            out.append("\n" if c == "\n" else " ")
+        else:
+            out.append(c)
+        i += 1
+    return "".join(out)
+
+
 def forbidden_scan(files=None):
-    """grep for declarations that would add axioms; returns list of 'file:line: text'."""
+    """grep (outside comments) for declarations that would add axioms; returns list of 'file:line: text'."""
     bad = []
     files = files or glob.glob(os.path.join(COQ, "*", "*.v"))
     for v in files:
         sect = 0
-        with open(v) as f:
-            for i, line in enumerate(f, 1):
-                s = re.sub(r"\(\*.*?\*\)", "", line)
-                if re.match(r"\s*Section\b", s):
-                    sect += 1
-                if re.match(r"\s*End\b", s) and sect > 0:
-                    sect -= 1
-                m = FORBIDDEN.search(s)
-                if m:
-                    w = m.group(1)
-                    if w.startswith(("Variable", "Hypothes")) and sect > 0:
-                        continue  # section-local: becomes a universally quantified premise
-                    if w.startswith(("Variable", "Hypothes")) and re.search(r"Context|Section", s):
-                        continue
-                    bad.append("%s:%d: %s" % (os.path.relpath(v, VERIF), i, line.strip()))
+        try:
+            text = strip_coq_comments(open(v).read())
+        except OSError:
+            continue
+        for i, s in enumerate(text.split("\n"), 1):
+            if re.match(r"\s*Section\b", s):
+                sect += 1
+            if re.match(r"\s*End\b", s) and sect > 0:
+                sect -= 1
+            m = FORBIDDEN.search(s)
+            if m:
+                w = m.group(1)
+                if w.startswith(("Variable", "Hypothes")) and sect > 0:
+                    continue  # section-local: becomes a universally quantified premise
+                if w.startswith(("Variable", "Hypothes")) and re.search(r"Context|Section", s):
+                    continue
+                bad.append("%s:%d: %s" % (os.path.relpath(v, VERIF), i, s.strip()))
     return bad
 
 
